@@ -248,6 +248,7 @@ def end_to_end(ctx):
         ss = SingleSetup(x, fs=fs)
         algs = [A.FDD(name="fdd", nxseg=nxseg, method_SD="per", pov=0.5),
                 A.FDD(name="fddc", nxseg=nxseg, method_SD="cor"),
+                A.EFDD(name="efdd", nxseg=nxseg, method_SD="per", pov=0.5),
                 A.FSDD(name="fsdd", nxseg=nxseg, method_SD="per", pov=0.5)]
         ss.add_algorithms(*algs)
         ss.run_all()
@@ -306,6 +307,36 @@ def end_to_end(ctx):
         if not (mac(ph, full) > 1 - 1e-6 and mac(ph, full.conj()) < 0.9):
             col.violation("FDD_MS/e2e/conjugation", f"FDD_MS: MAC with amplitudes {mac(ph, full):.6f}, conj {mac(ph, full.conj()):.6f}", rep)
         col.mark_nontrivial(("e2e", "FDD_MS", ai, line))
+        # first stage of EFDD_MS on the same multi-setup object
+        em = A.EFDD_MS(name="efddms", nxseg=nxseg, method_SD="per", pov=0.5)
+        ms.add_algorithms(em)
+        ms.run_by_name("efddms")
+        col.count()
+        spy, orig = {}, fdd.FDD_mpe
+
+        def wrapped_ms(*aa, **kk):
+            r = orig(*aa, **kk)
+            spy["Fn"], spy["Phi"] = r
+            return r
+
+        fdd.FDD_mpe = wrapped_ms
+        try:
+            em.mpe(sel_freq=[f0 + 0.25 * fs / nxseg], DF1=2 * fs / nxseg, DF2=16 * fs / nxseg, sppk=1, npmax=6)
+        except Exception as e:
+            spy["err"] = repr(e)
+        finally:
+            fdd.FDD_mpe = orig
+        if "Fn" not in spy:
+            col.violation("EFDD_MS/e2e/no_result", f"EFDD_MS: no first-stage result ({spy.get('err')})", rep)
+        else:
+            phi = em.result.Phi if em.result.Phi is not None else spy["Phi"]
+            ph = np.asarray(phi)[:, 0]
+            k = int(round(float(np.atleast_1d(spy["Fn"])[0]) / (fs / nxseg)))
+            if k != line:
+                col.violation("EFDD_MS/e2e/line", f"EFDD_MS: first stage picked line {k}, the sinusoid sits at line {line}", rep)
+            if not (mac(ph, full) > 1 - 1e-6 and mac(ph, full.conj()) < 0.9):
+                col.violation("EFDD_MS/e2e/conjugation", f"EFDD_MS: MAC with amplitudes {mac(ph, full):.6f}, conj {mac(ph, full.conj()):.6f}", rep)
+            col.mark_nontrivial(("e2e", "EFDD_MS", ai, line))
     col.traces = len(cases)
     col.sample({"end_to_end": "sinusoid", "amplitudes": AMPS[0], "line": lines[0], "nxseg": nxseg, "fs": fs}, cap=1)
     ctx.merge(col)
